@@ -828,9 +828,9 @@ impl CertificateParams {
 								oid::BASIC_CONSTRAINTS,
 								true,
 								|writer| {
-									writer.write_sequence(|writer| {
-										writer.next().write_bool(false); // cA flag
-									});
+									// cA is `BOOLEAN DEFAULT FALSE`: DER forbids encoding a
+									// default value, so CA:FALSE is the empty sequence.
+									writer.write_sequence(|_writer| {});
 								},
 							);
 						},
